@@ -184,7 +184,61 @@ const SEEDS: [usize; 11] = [
     usize::MAX,
 ];
 
+/// The Miri slice (thorough tier of the memory-safety properties): the same kind of histories,
+/// small enough to be enumerated under the interpreter, which then is the per-execution oracle for
+/// use-after-free, double free, uninitialised reads and data races that the probes cannot see.
+fn miri_scenarios(prop: &str) -> Vec<Cfg> {
+    let mut v = vec![];
+    match prop {
+        "C03" => {
+            for (k, pre) in [(Kind::Fub(1), 1usize), (Kind::Fub(2), 2), (Kind::FuCap(1), 2), (Kind::Mb(1), 1)] {
+                for pre_polls in [0usize, 1] {
+                    let mut c = Cfg::new("C03", k);
+                    c.name = format!("miri {:?} prefill {} pre-polled {}", k, pre, pre_polls);
+                    c.prefill = (0..pre).map(|i| if k.is_merge() { s("PI") } else { f(if i == 1 { Mode::Ready } else { Mode::Gate }) }).collect();
+                    c.pre_polls = pre_polls;
+                    c.ops = ops::POLL | ops::COMPLETE | ops::WAKER_POOL | ops::DROP_SUBJECT | ops::STALE_WAKE;
+                    // the interpreter is ~10^4 times slower: the orders in which the owners die are
+                    // the point here, polls/completions/stale wakes are rationed
+                    c.costly = ops::POLL | ops::COMPLETE | ops::STALE_WAKE;
+                    c.delta = 1;
+                    c.pool_max = 1;
+                    c.depth = 4;
+                    c.epilogue = Epilogue::DropNow;
+                    v.push(c);
+                }
+            }
+        }
+        "C07" | "C06" => {
+            let p: &'static str = if prop == "C07" { "C07" } else { "C06" };
+            for mut c in join_cfgs(p, 2, 5, 2, if prop == "C07" { Epilogue::Drain } else { Epilogue::DropNow }) {
+                c.name = format!("miri {}", c.name);
+                c.delta = 0;
+                v.push(c);
+            }
+            if prop == "C06" {
+                for k in [Kind::Fob(2), Kind::FoCap(1), Kind::Bo(2), Kind::Tbu(1)] {
+                    let mut c = if k.is_adapter() { adapter_cfg("C06", k, 2, HintShape::Exact, 4, 1) } else { Cfg::new("C06", k) };
+                    c.name = format!("miri {:?}", k);
+                    if !k.is_adapter() {
+                        c.specs = vec![f(Mode::Gate), f(Mode::Ready)];
+                        c.ops = ops::PUSH | ops::PUSH_FRONT | ops::POLL | ops::COMPLETE;
+                        c.depth = 4;
+                    }
+                    c.epilogue = Epilogue::DropNow;
+                    v.push(c);
+                }
+            }
+        }
+        _ => {}
+    }
+    v
+}
+
 pub fn scenarios(prop: &str, tier: &str) -> Vec<Cfg> {
+    if tier == "miri" {
+        return miri_scenarios(prop);
+    }
     let thorough = tier == "thorough";
     let mut v = vec![];
     match prop {
